@@ -902,3 +902,122 @@ def blocksScan (blocks : List DictPart) (kid : KeyId) (pre : Bytes) (check : Byt
   blocks.flatMap (fun b => (b.filter (fun e => e.1 == kid && pre.isPrefixOf e.2.1 && check e.2.1)).map (·.2.2))
 
 end LinVerif.TagFilter
+
+namespace LinVerif.TagFilter
+
+/-! ### the bucket cache of `indexKVStore` (exact lookups ‖ Flush)
+
+`getOrCreateValue`: memory tables, then the bucket cache, else the bucket of the store's snapshot,
+which is cached only if the snapshot is still current (`addBucketCache`). `Flush`:
+`flusher.Close()` (file installed in the kv family), then under the write lock: `snapshot = new`,
+`immutable = nil`, `bucketCache.Purge()`. -/
+
+structure KVStore where
+  mtb : DictPart := []
+  imm : Option DictPart := none
+  /-- files of the kv family's current version -/
+  files : List DictPart := []
+  /-- `s.snapshot`: its identity (generation) and the files it shows -/
+  snapGen : Nat := 0
+  snapFiles : List DictPart := []
+  /-- bucket id ↦ the cached `TrieBucket` (its entries) -/
+  cache : List (KeyId × DictPart) := []
+  deriving Repr
+
+/-- `IndexKVReader.GetBucket`: the entries of bucket `kid` in the given files -/
+def bucketOf (files : List DictPart) (kid : KeyId) : DictPart :=
+  files.flatten.filter (fun e => e.1 == kid)
+
+/-- the steps of `indexKVStore.Flush` that matter for readers -/
+inductive FStep
+  | close          -- flusher.Close(): the new file is part of the family's current version
+  | swap (purge : Bool)  -- under the write lock: snapshot = new, immutable = nil (and Purge() if `purge`)
+  | purge          -- bucketCache.Purge() on its own
+  deriving DecidableEq, Repr
+
+/-- the steps of one exact lookup of bucket `kid` that touch shared state (it missed the memory
+tables and the cache): take the snapshot, later `addBucketCache` -/
+inductive LStep
+  | take (kid : KeyId)
+  | add (kid : KeyId)
+  deriving DecidableEq, Repr
+
+structure LookupCtx where
+  taken : Option (Nat × List DictPart) := none
+  deriving Repr
+
+def KVStore.fstep (s : KVStore) : FStep → KVStore
+  | .close => match s.imm with
+    | some p => { s with files := s.files ++ [p] }
+    | none => s
+  | .swap purge => { s with snapGen := s.snapGen + 1, snapFiles := s.files, imm := none,
+                            cache := if purge then [] else s.cache }
+  | .purge => { s with cache := [] }
+
+def lstep (sc : KVStore × LookupCtx) : LStep → KVStore × LookupCtx
+  | .take _ => (sc.1, { taken := some (sc.1.snapGen, sc.1.snapFiles) })
+  | .add kid => match sc.2.taken with
+    | some (g, fs) =>
+      -- addBucketCache: only while the snapshot the bucket was read from is current
+      if g = sc.1.snapGen then ({ sc.1 with cache := sc.1.cache ++ [(kid, bucketOf fs kid)] }, sc.2) else sc
+    | none => sc
+
+/-- a step of either party -/
+inductive PStep
+  | f (s : FStep)
+  | l (s : LStep)
+  deriving DecidableEq, Repr
+
+def pstep (sc : KVStore × LookupCtx) : PStep → KVStore × LookupCtx
+  | .f s => (sc.1.fstep s, sc.2)
+  | .l s => lstep sc s
+
+def mergesAux {α : Type} (a : α) (t1 : List α) (rec1 : List α → List (List α)) : List α → List (List α)
+  | [] => [a :: t1]
+  | b :: t2 => ((rec1 (b :: t2)).map (a :: ·)) ++ ((mergesAux a t1 rec1 t2).map (b :: ·))
+
+/-- all interleavings of two step lists (each keeps its own order) -/
+def merges {α : Type} : List α → List α → List (List α)
+  | [], l2 => [l2]
+  | a :: t1, l2 => mergesAux a t1 (merges t1) l2
+
+/-- the order of the flush steps: purge together with the snapshot swap (true, the source as tied by
+`tie_flush_order`) or purge first, outside the lock (false) -/
+def flushOrder (purgeAtSwap : Bool) : List FStep :=
+  if purgeAtSwap then [.close, .swap true] else [.purge, .close, .swap false]
+
+/-- a later exact lookup (`GetValue`): memory tables, cached bucket, else the snapshot's bucket -/
+def KVStore.exactFind (s : KVStore) (kid : KeyId) (v : Bytes) : Option ValId :=
+  match partFind s.mtb kid v with
+  | some id => some id
+  | none =>
+    match partFind (optList s.imm) kid v with
+    | some id => some id
+    | none =>
+      match Map.lookup s.cache kid with
+      | some b => partFind b kid v
+      | none => partFind (bucketOf s.snapFiles kid) kid v
+
+/-! ### dictionary compaction pairs every key with its own id (`TrieBucket.Write`) -/
+
+/-- lexicographic order on byte strings (`bytes.Compare < 0`) -/
+def bytesLt : Bytes → Bytes → Bool
+  | [], [] => false
+  | [], _ :: _ => true
+  | _ :: _, [] => false
+  | a :: s, b :: t => a < b || (a == b && bytesLt s t)
+
+def insertByKey (e : Bytes × ValId) : List (Bytes × ValId) → List (Bytes × ValId)
+  | [] => [e]
+  | x :: t => if bytesLt e.1 x.1 then e :: x :: t else x :: insertByKey e t
+
+/-- the prefix iterator over one trie: its (key, `itr.Value()`) pairs in key order -/
+def trieIterate (t : List (Bytes × ValId)) : List (Bytes × ValId) :=
+  t.foldr insertByKey []
+
+/-- `TrieBucket.Write`, the merge of the small tries: per trie, per iterated key,
+`keys = append(keys, k); ids = append(ids, itr.Value())` -/
+def mergeTries (ts : List (List (Bytes × ValId))) : List (Bytes × ValId) :=
+  ts.flatMap trieIterate
+
+end LinVerif.TagFilter
